@@ -1253,9 +1253,12 @@ impl Engine for C20 {
          bit-flipped encoding, commitment-time decode, root/bounds walk over a shared program, unfinalize + re-finalise in a fresh context, \
          to_construct_node + finalize_unpruned, execution with C jets, prune, building a program from a recipe (type inference in own \
          contexts), ill-typed constructions (error paths of the context mutex), policy compile/satisfy/execute with deterministic keys, \
-         human-encoding parse/serialise, value construct/compare/hash, and dropping the thread's reference to a shared program. The \
-         workload is executed under shuttle's seeded RandomScheduler or PctScheduler (depth 2-3) for a number of schedules; in every \
-         schedule each operation's digest must equal its digest from the sequential baseline run inside the same execution. An evaluation \
+         human-encoding parse/serialise, value construct/compare/hash, touching the lazily initialised type tables, building over \
+         shared nodes with two extra threads in ONE inference context, and dropping the thread's reference to a shared program. The \
+         workload is executed under shuttle's seeded RandomScheduler or PctScheduler (depth 2-3) for a number of schedules (even \
+         iterations: main thread decodes the shared programs first; odd iterations: nothing runs before the threads start); in every \
+         schedule each operation's digest (for executions: including the output bits of every node) must equal its digest from a \
+         sequential run of the same operations in a FRESH process. An evaluation \
          is one schedule; non-trivial = the observed global completion order is not a concatenation of per-thread orders; distinct = \
          distinct (workload, observed completion order)."
             .into()
